@@ -60,7 +60,7 @@ class C20(Prop):
                 if depth is not None and below > depth:
                     continue
                 elig.append(p)
-            got = case.call("get_webentity_most_linked_pages", t.get_webentity_most_linked_pages, w, list(ps),
+            got = case.call("get_webentity_most_linked_pages", t.get_webentity_most_linked_pages, w, ob.args(ps),
                             pages_count=k, max_depth=depth)
             lrus = [bytes(g["lru"]) for g in got]
             if len(lrus) != len(set(lrus)):
@@ -117,5 +117,18 @@ class C20(Prop):
                 case.abort()
         return {"K1": k1}
 
+
+    # scale probe (tv/scale.py): 320 webentities (ids beyond 256), 1280+ pages, judged once by this property's oracle
+    def extra_checks(self, ctx, tier, seed, shard, nshards):
+        if shard != 2 % nshards:
+            return
+        from ..scale import build
+        case = build(self, ctx, 320 if tier == "quick" else 700)
+        try:
+            self.run_probe(case, ("probe", "most-linked", [(w, 2, None) for w in sorted(case.led.webentities())[::9]] + [(300, 3, 1), (257, 1, 0)]))
+            ctx.extra["scale_probe_pages"] += len(case.led.pages)
+            ctx.extra["scale_probe_webentities"] += len(case.led.webentities())
+        finally:
+            case.abort()
 
 PROP = C20()
